@@ -7,7 +7,7 @@
 From Coq Require Import List PArith ZArith Bool String.
 From SV Require Import SM.Store SM.StoreProofs SM.StoreCert SM.StoreCertProofs SM.StoreCopy SM.StoreCopyProofs
   SM.StoreExamples SM.KvAdd SM.KvAddProofs SM.StoreCopySrc SM.StoreCopySrcProofs SM.KvAddFresh SM.KvAddFreshProofs
-  SM.StoreCopyExport SM.StoreCopyExportProofs SM.StoreCopyFlow SM.StoreCopyFlowProofs SM.StoreCopyWholeProofs SM.OpPurity SM.OpPurityProofs SM.CollapseCensus SM.CollapseCensusProofs
+  SM.StoreCopyExport SM.StoreCopyExportProofs SM.StoreCopyFlow SM.StoreCopyFlowProofs SM.StoreCopyWholeProofs SM.StoreRowCert SM.StoreRowCertProofs SM.OpPurity SM.OpPurityProofs SM.CollapseCensus SM.CollapseCensusProofs
   Gen.CopyCensus_gen Gen.CopyExportReads_gen Gen.C09OpCensus_gen Gen.C09Collapse_gen.
 Import ListNotations.
 
@@ -465,3 +465,37 @@ Proof.
     cbn in E1. inversion E1; subst s. exact Hsm. }
   intros. eapply c09_copy_complete_and_independent; eauto.
 Qed.
+
+(** ROUND 3 — THE CENSUS ROWS HOLD ON REAL OBJECT GRAPHS (kernel-checked certificate).  The census theorems take as
+    premise that the copy's fields are related to the original's as the rows say ([fields_rel_src]) and that the
+    original's fields have the declared kinds ([kinds_rel]).  [row_cert_ok] DECIDES these premises on a finite heap
+    exported from real srctools objects (original + copy, the original's part marked old) against the generated census
+    and source tables; the check evaluates it in the kernel for generated objects of every census label.  An accepted
+    heap satisfies every premise of [c09_census_src_copy_independent], hence its conclusion. *)
+Theorem c09_row_cert_premises : forall l' old la lc SB c s,
+  row_cert_ok l' old la lc SB c s = true ->
+  let h' := hof (mk_heap l') in let h := hold (mk_heap l') (mk_set old) in
+  closed h /\ closed h' /\ extends h h' /\
+  exists nd nd', h la = Some nd /\ h lc = None /\ h' lc = Some nd' /\
+                 kinds_rel h c (nfields nd) /\ fields_rel_src h h' (nfields nd) (resolve c s) (nfields nd').
+Proof. exact row_cert_premises. Qed.
+
+Theorem c09_row_cert_sound : forall l' old la lc SB c s,
+  row_cert_ok l' old la lc SB c s = true ->
+  copy_fresh_mutables c = true -> copy_sources_match c s = true ->
+  let h' := hof (mk_heap l') in
+  (forall ms h'' R, steps (h', [lc]) ms (h'', R) -> forall n, unfold n h'' (VRef la) = unfold n h' (VRef la)) /\
+  (forall ms h'' R, steps (h', [la]) ms (h'', R) -> forall n, unfold n h'' (VRef lc) = unfold n h' (VRef lc)).
+Proof. exact row_cert_sound. Qed.
+
+(** The checker accepts a faithful two-field copy and rejects a copy that shares the vector / changes the number. *)
+Theorem c09_row_cert_not_vacuous :
+  row_cert_ok [(1, Node true [VAtom 5; VRef 3]); (3, Node true [VAtom 255]);
+               (2, Node true [VAtom 5; VRef 4]); (4, Node true [VAtom 255])]%positive
+              [1; 3]%positive 1%positive 2%positive [2; 4]%positive rc_census rc_sources = true /\
+  row_cert_ok [(1, Node true [VAtom 5; VRef 3]); (3, Node true [VAtom 255]); (2, Node true [VAtom 5; VRef 3])]%positive
+              [1; 3]%positive 1%positive 2%positive [2; 3]%positive rc_census rc_sources = false /\
+  row_cert_ok [(1, Node true [VAtom 5; VRef 3]); (3, Node true [VAtom 255]);
+               (2, Node true [VAtom 6; VRef 4]); (4, Node true [VAtom 255])]%positive
+              [1; 3]%positive 1%positive 2%positive [2; 4]%positive rc_census rc_sources = false.
+Proof. exact (conj row_cert_accepts (conj row_cert_rejects_shared row_cert_rejects_changed_value)). Qed.
